@@ -190,7 +190,7 @@ class CTracer(Tracer):
 
     def call(self, node, env, glob):
         ftxt = ast.unparse(node.func)
-        if ftxt == "torch.cat":
+        if ftxt in ("torch.cat", "torch.concatenate", "torch.concat"):
             args = [self.eval(a, env, glob) for a in node.args]
             kwargs = {k.arg: self.eval(k.value, env, glob) for k in node.keywords if k.arg}
             items = list(args[0])
